@@ -50,10 +50,18 @@ ASSUMPTIONS = {
 # ----------------------------------------------------------------------------- data
 
 def tables(scn):
+    # the three tables are drawn one after the other from one generator, so their content depends on the number of rows drawn: a scenario
+    # records it ('nmax'; replay files written before the tables grew to 1024 rows have none and mean 256)
+    n = int(scn.get('nmax', 256))
     g = rng.np_stream(scn['table_seed'], 'data')
-    raw_t = g.integers(0, 1 << 16, (NMAX, MMAX))
-    raw_f = g.standard_normal((NMAX, MMAX))
-    raw_d = g.integers(0, 1 << 16, (NMAX, WMAX))
+    raw_t = g.integers(0, 1 << 16, (n, MMAX))
+    raw_f = g.standard_normal((n, MMAX))
+    raw_d = g.integers(0, 1 << 16, (n, WMAX))
+    if n < NMAX:
+        pad = NMAX - n
+        raw_t = np.concatenate([raw_t, np.zeros((pad, MMAX), raw_t.dtype)])
+        raw_f = np.concatenate([raw_f, np.zeros((pad, MMAX))])
+        raw_d = np.concatenate([raw_d, np.zeros((pad, WMAX), raw_d.dtype)])
     return raw_t, raw_f, raw_d
 
 
@@ -179,7 +187,7 @@ def gen_history(seed, tier, prop, kinds_allowed):
     else:
         tdtype = r.choice(['float32', 'float64'] if (thorough or not numba_kind) else ['float32'])
     scn = {'prop': prop, 'engine': 'accum', 'seed': seed, 'kind': kind, 'precision': precision, 'tdtype': tdtype,
-           'regime': regime, 'table_seed': rng.H(seed, 'table'), 'offset': 0}
+           'regime': regime, 'table_seed': rng.H(seed, 'table'), 'offset': 0, 'nmax': NMAX}
     # sizes
     if regime == 'exact':
         n = _weighted(r, [(r.randint(2, 12), 3), (r.randint(13, 64), 4), (r.randint(65, 256 if thorough else 128), 1),
